@@ -264,7 +264,7 @@ def check_seeding(rep: Rep, pre: str, comp: Competition, repo: Repo) -> None:
         g = comp.graph
         kinds = Kinds(w)
         ki = kinds.kind(i) if i is not None else None
-        full = ki == ("NodeIdx", g) and i[0] == "iter"
+        full = ki == ("NodeIdx", g) and i[0] in ("iter", "iterproj")
         rep.ev(pre + "SEED-range", ins, full, "seeding must visit every node of the graph")
         if i is None:
             continue
@@ -444,7 +444,7 @@ def check_fmin_clustering(rep: Rep, pre: str, comp: Competition, label_field: st
     inserts = [e for e in before if e.kind == "call" and e.name == "insert" and e.target == ("attr", comp.heap, "insert")]
     kinds = Kinds(w)
     ok_ins = len(inserts) == 1 and inserts[0].args and kinds.kind(inserts[0].args[0]) == ("NodeIdx", g) \
-        and inserts[0].args[0][0] == "iter"
+        and inserts[0].args[0][0] in ("iter", "iterproj")
     rep.fn(pre + "CLU-seed-all", fn, "every node is queued before the competition", bool(ok_ins),
            f"found {len(inserts)} insert site(s); one unconditional insert per node expected", line=comp.loop.line)
     if ok_ins:
@@ -605,7 +605,7 @@ def check_propagate_labels(rep: Rep, w: Walker) -> None:
                     eq = ("cmp", "==", *sorted([i, rooti], key=repr))
                     ok = any(gd == eq and pol for gd, pol in e.guards)
                     detail = "label(i) is used without the guard root(i) == i"
-            full = kinds.kind(i) == ("NodeIdx", n[0]) and i[0] == "iter"
+            full = kinds.kind(i) == ("NodeIdx", n[0]) and i[0] in ("iter", "iterproj")
             if not full:
                 ok, detail = False, "the loop does not visit every node"
         rep.ev("PROP-root-label", e, ok, detail)
